@@ -7,9 +7,254 @@ package syntax
 //@ func search(subject, sub)
 //@   tags C14, C10
 //@   assigns nothing
-//@   requires nonnil(subject) && nonnil(sub)
-//@   ensures[C14] sound: result >= 0 && len(sub) >= 1 ==> window(subject, result, sub)
+//@   requires nnsubject: nonnil(subject)
+//@   ensures[C14] sound: result >= 0 && len(sub) >= 1 ==> win(subject, result, sub)
 //@   ensures[C14] range: result >= -1 && result <= len(subject)
+//@   ensures[C14] least: result >= 0 && len(sub) >= 1 ==> forall j in 0..result :: !win(subject, j, sub)
+//@   ensures[C14] complete: result < 0 ==> forall j in 0..len(subject) :: !win(subject, j, sub)
+//@   ensures[C14] empty: len(sub) == 0 && len(subject) > 0 ==> result >= 0
 //@   loop 0 invariant bounds: 0 <= subOffset && subOffset <= subjectOffset && subjectOffset <= len(subject)
 //@   loop 0 invariant lt: subOffset <= len(sub) && (len(sub) >= 1 ==> subOffset < len(sub))
 //@   loop 0 invariant matched: forall k in 0..subOffset :: eq(subject[subjectOffset-subOffset+k], sub[k])
+//@   loop 0 invariant nomatch: forall j in 0..(subjectOffset-subOffset) :: !win(subject, j, sub)
+//@   loop 0 decreases[C10,C14] (len(subject) - (subjectOffset - subOffset)) * (len(sub) + 1) - subOffset
+
+// ---- array helpers (std_seq_array_helper.go) -------------------------------------------------------
+
+//@ func arrayContains(sub, subject)
+//@   tags C14, C10
+//@   assigns fresh-only
+//@   returns (v, err)
+//@   requires validArray(subject) && validSet(sub)
+//@   ensures[C14] kinds: (err == nil) == (sub is rel.Array || sub is rel.EmptySet)
+//@   ensures[C14] errnil: err != nil ==> v == nil
+//@   ensures[C14] bool: err == nil ==> (v is rel.TrueSet || v is rel.EmptySet)
+//@   ensures[C14] def: sub is rel.Array ==> ((v is rel.TrueSet) <==> occurs(subject.values, sub.(rel.Array).values))
+//@   ensures[C14] empty: sub is rel.EmptySet ==> v is rel.TrueSet
+
+// has_suffix: textbook = the last len(suffix) elements of subject equal suffix pointwise.
+//@ func arrayHasSuffix(suffix, subject)
+//@   tags C14, C10
+//@   assigns fresh-only
+//@   returns (v, err)
+//@   requires validArray(subject) && validSet(suffix)
+//@   ensures[C14] kinds: (err == nil) == (suffix is rel.Array || suffix is rel.EmptySet)
+//@   ensures[C14] errnil: err != nil ==> v == nil
+//@   ensures[C14] bool: err == nil ==> (v is rel.TrueSet || v is rel.EmptySet)
+//@   ensures[C14] def: suffix is rel.Array && dense(subject) && dense(suffix.(rel.Array)) ==> ((v is rel.TrueSet) <==> win(subject.values, len(subject.values) - len(suffix.(rel.Array).values), suffix.(rel.Array).values))
+//@   ensures[C14] empty: suffix is rel.EmptySet ==> v is rel.TrueSet
+//@   loop 0 invariant off: suffixOffset == suffixArray.count - 1 - $idx && 0 <= suffixOffset
+//@   loop 0 invariant cmp: forall k in 0..$idx :: eq(subject.values[subject.count - 1 + k], suffixVals[suffixArray.count - 1 - k])
+
+// has_prefix: textbook = the first len(prefix) elements of subject equal prefix pointwise.
+// The subject is walked with Array.ArrayEnumerator (interface contracts of rel.ValueEnumerator in
+// 50_seq.spec); for a dense subject every MoveNext advances by exactly one position.
+//@ func arrayHasPrefix(prefix, subject)
+//@   tags C14, C10
+//@   assigns fresh-only
+//@   modifies rel.arrayValueEnumerator
+//@   returns (v, err)
+//@   requires prefix != nil && validArray(subject) && validSet(prefix)
+//@   ensures[C14] kinds: (err == nil) == (!istrue(prefix) || prefix is rel.Array || prefix is rel.EmptySet)
+//@   ensures[C14] errnil: err != nil ==> v == nil
+//@   ensures[C14] bool: err == nil ==> (v is rel.TrueSet || v is rel.EmptySet)
+//@   ensures[C14] def: prefix is rel.Array && dense(subject) && dense(prefix.(rel.Array)) ==> ((v is rel.TrueSet) <==> win(subject.values, 0, prefix.(rel.Array).values))
+//@   ensures[C14] empty: prefix is rel.EmptySet ==> v is rel.TrueSet
+//@   loop 0 invariant enum: arrayEnum is *rel.arrayItemEnumerator && fresh(arrayEnum.(*rel.arrayItemEnumerator)) && fresh(aie(arrayEnum)) && aie(arrayEnum).a == subject && -1 <= aie(arrayEnum).i && aie(arrayEnum).i < len(subject.values)
+//@   loop 0 invariant off: 0 <= prefixOffset && prefixOffset < prefixArray.count && (dense(subject) ==> aie(arrayEnum).i == prefixOffset - 1)
+//@   loop 0 invariant cmp: dense(subject) ==> win(subject.values, 0, prefixVals[0:prefixOffset])
+
+// trim_prefix: textbook = subject without its first len(prefix) elements if prefix is a prefix, else subject.
+//@ func arrayTrimPrefix(prefix, subject)
+//@   tags C14, C10
+//@   assigns fresh-only
+//@   modifies rel.arrayValueEnumerator
+//@   returns (v, err)
+//@   requires prefix != nil && validArray(subject) && validSet(prefix)
+//@   ensures[C14] kinds: (err == nil) == (!istrue(prefix) || prefix is rel.Array || prefix is rel.EmptySet)
+//@   ensures[C14] errnil: err != nil ==> v == nil
+//@   ensures[C14] emptyprefix: prefix is rel.EmptySet ==> v == box(subject)
+//@   ensures[C14] noprefix: prefix is rel.Array && dense(subject) && dense(prefix.(rel.Array)) && !win(subject.values, 0, prefix.(rel.Array).values) ==> v == box(subject)
+// (trimmed.*: the antecedent `p < n ==> subject.values[p] != nil` is implied by dense(subject); it is there to put the
+//  ground term subject.values[p] into the query so that the quantified clauses of Difference get instantiated)
+//@   ensures[C14] trimmed.kind: prefix is rel.Array && dense(subject) && dense(prefix.(rel.Array)) && subject.offset == prefix.(rel.Array).offset && win(subject.values, 0, prefix.(rel.Array).values) && (len(prefix.(rel.Array).values) < len(subject.values) ==> subject.values[len(prefix.(rel.Array).values)] != nil) ==> (len(prefix.(rel.Array).values) >= len(subject.values) ? v is rel.EmptySet : v is rel.Array)
+//@   ensures[C14] trimmed.shape: prefix is rel.Array && dense(subject) && dense(prefix.(rel.Array)) && subject.offset == prefix.(rel.Array).offset && win(subject.values, 0, prefix.(rel.Array).values) && (len(prefix.(rel.Array).values) < len(subject.values) ==> subject.values[len(prefix.(rel.Array).values)] != nil) && v is rel.Array ==> v.(rel.Array).offset == subject.offset && len(v.(rel.Array).values) == len(subject.values) - len(prefix.(rel.Array).values)
+// (not claimed: trimmed.items — the remaining elements are identical to subject.values[p:]; the query diverges, see notes)
+
+// trim_suffix: textbook = subject without its last len(suffix) elements if suffix is a suffix, else subject.
+//@ func arrayTrimSuffix(suffix, subject)
+//@   tags C14, C10
+//@   assigns fresh-only
+//@   returns (v, err)
+//@   requires suffix != nil && validArray(subject) && validSet(suffix)
+//@   ensures[C14] kinds: (err == nil) == (!istrue(suffix) || suffix is rel.Array || suffix is rel.EmptySet)
+//@   ensures[C14] errnil: err != nil ==> v == nil
+//@   ensures[C14] emptysuffix: suffix is rel.EmptySet ==> v == box(subject)
+//@   ensures[C14] nosuffix: suffix is rel.Array && dense(subject) && dense(suffix.(rel.Array)) && !win(subject.values, len(subject.values) - len(suffix.(rel.Array).values), suffix.(rel.Array).values) ==> v == box(subject)
+//@   ensures[C14] trimmed.kind: suffix is rel.Array && dense(subject) && dense(suffix.(rel.Array)) && subject.offset == suffix.(rel.Array).offset && win(subject.values, len(subject.values) - len(suffix.(rel.Array).values), suffix.(rel.Array).values) && (len(suffix.(rel.Array).values) < len(subject.values) ==> subject.values[len(subject.values) - len(suffix.(rel.Array).values) - 1] != nil) ==> (len(suffix.(rel.Array).values) >= len(subject.values) ? v is rel.EmptySet : v is rel.Array)
+//@   ensures[C14] trimmed.shape: suffix is rel.Array && dense(subject) && dense(suffix.(rel.Array)) && subject.offset == suffix.(rel.Array).offset && win(subject.values, len(subject.values) - len(suffix.(rel.Array).values), suffix.(rel.Array).values) && (len(suffix.(rel.Array).values) < len(subject.values) ==> subject.values[len(subject.values) - len(suffix.(rel.Array).values) - 1] != nil) && v is rel.Array ==> v.(rel.Array).offset == subject.offset && len(v.(rel.Array).values) == len(subject.values) - len(suffix.(rel.Array).values)
+
+// ---- join / split / sub on arrays: safety (C10) + frame (C03: every append target is fresh) ------------
+// sliceOf(s, a): slice s is a tail view of a.values (same backing row, same end)
+//@ spec tailOf(s, vals) = s.ref == vals.ref && s.off >= vals.off && s.off + len(s) == vals.off + len(vals) && s.off + cap(s) == vals.off + cap(vals)
+// freshOrNil(s): s is nil/empty-capacity or was allocated by this call (so append to it never writes old memory)
+//@ spec freshOrNil(s) = cap(s) == 0 || fresh(s)
+
+//@ func arrayJoin(joiner, subject)
+//@   tags C14, C10
+//@   assigns fresh-only
+//@   returns (v, err)
+//@   requires validArray(subject) && validSet(joiner)
+//@   ensures[C14] kinds: !(joiner is rel.Array || joiner is rel.EmptySet) ==> err != nil && v == nil
+//@   ensures[C14] errnil: err != nil ==> v == nil
+//@   loop 0 invariant fr: fresh(result)
+
+//@ func arraySplit(delimiter, subject)
+//@   tags C14, C10
+//@   assigns fresh-only
+//@   returns (v, err)
+//@   requires validArray(subject) && validSet(delimiter)
+//@   ensures[C14] kinds: (err == nil) == (delimiter is rel.Array || delimiter is rel.EmptySet)
+//@   ensures[C14] errnil: err != nil ==> v == nil
+//@   loop 0 invariant fr: freshOrNil(result)
+//@   loop 0 invariant first: len(result) == 0 || result[0] != nil
+//@   loop 1 invariant fr: freshOrNil(result)
+//@   loop 1 invariant first: len(result) == 0 || result[0] != nil
+//@   loop 1 invariant tail: tailOf(subjectVals, subject.values)
+//@   loop 1 decreases[C10,C14] len(subjectVals)
+
+//@ func arraySub(oldv, newv, subject)
+//@   tags C14, C10
+//@   assigns fresh-only
+//@   returns (v, err)
+//@   requires validArray(subject) && validSet(oldv) && validSet(newv)
+//@   ensures[C14] kinds: (err == nil) == ((oldv is rel.Array || oldv is rel.EmptySet) && (newv is rel.Array || newv is rel.EmptySet))
+//@   ensures[C14] errnil: err != nil ==> v == nil
+//@   loop 0 invariant fr: fresh(result)
+//@   loop 1 invariant fr: fresh(result)
+//@   loop 1 invariant tail: tailOf(subjectVals, subject.values)
+//@   loop 1 decreases[C10,C14] len(subjectVals)
+
+// ---- bytes helpers (std_seq_bytes_helper.go) and repeat (std_seq.go) ------------------------------------
+//@ func bytesJoin(joiner, subject)
+//@   tags C14, C10
+//@   assigns fresh-only
+//@   requires joiner != nil && validBytes(subject) && validSet(joiner)
+//@   loop 0 invariant fr: fresh(result)
+
+//@ func stdSeqRepeat(ctx, arg)
+//@   tags C14, C10
+//@   assigns fresh-only
+//@   returns (f, err)
+//@   requires arg != nil
+//@   ensures[C14] noerr: err == nil
+
+//@ func stdSeqRepeat$1(ctx, arg)
+//@   tags C14, C10
+//@   assigns fresh-only
+//@   returns (v, err)
+//@   requires arg != nil && validSet(arg)
+//@   ensures[C14] kinds: !(arg is rel.String || arg is rel.Array || (arg is rel.Set && !istrue(arg))) ==> err != nil && v == nil
+//@   ensures[C14] errnil: err != nil ==> v == nil
+//@   loop 0 invariant fr: freshOrNil(values)
+//@   loop 0 invariant first: len(values) == 0 || values[0] != nil
+
+// ---- the //seq dispatch wrappers (std_seq.go) --------------------------------------------------------------
+// Claimed: for each representation of the subject the branch taken calls the matcher of that representation
+// (array: the helper above, whose contract gives the textbook answer; string/bytes: Go's strings/bytes function
+// under its extern contract, 50_seq.spec / 80_codec.spec), and an operand of another kind gives an error, never
+// an answer. okFor(subject, x): x has the representation of subject (or is the empty set).
+//@ spec okFor(subject, x) = (subject is rel.String ==> (x is rel.String || x is rel.EmptySet)) && (subject is rel.Bytes ==> (x is rel.Bytes || x is rel.EmptySet)) && (subject is rel.Array ==> (x is rel.Array || x is rel.EmptySet))
+//@ spec seqRep(subject) = subject is rel.String || subject is rel.Bytes || subject is rel.Array
+
+//@ func stdSeqContains(ctx, sub, subject)
+//@   tags C14, C10
+//@   assigns fresh-only
+//@   returns (v, err)
+//@   requires sub != nil && subject != nil && validSet(subject) && validSet(sub)
+//@   ensures[C14] mismatch: seqRep(subject) ==> ((err == nil) == okFor(subject, sub))
+//@   ensures[C14] errnil: err != nil ==> v == nil
+//@   ensures[C14] bool: err == nil ==> (v is rel.TrueSet || v is rel.EmptySet)
+//@   ensures[C14] arr: subject is rel.Array && sub is rel.Array ==> ((v is rel.TrueSet) <==> occurs(subject.(rel.Array).values, sub.(rel.Array).values))
+//@   ensures[C14] byt: subject is rel.Bytes && sub is rel.Bytes ==> ((v is rel.TrueSet) <==> exists j in 0..len(subject.(rel.Bytes).b)+1 :: bwin(subject.(rel.Bytes).b, j, sub.(rel.Bytes).b))
+//@   ensures[C14] emptysub: (subject is rel.Bytes || subject is rel.Array) && sub is rel.EmptySet ==> v is rel.TrueSet
+//@   ensures[C14] emptysubject: subject is rel.EmptySet ==> err == nil && ((v is rel.TrueSet) <==> sub is rel.EmptySet)
+
+//@ func stdSeqHasPrefix(ctx, prefix, subject)
+//@   tags C14, C10
+//@   assigns fresh-only
+//@   modifies rel.arrayValueEnumerator
+//@   returns (v, err)
+//@   requires prefix != nil && subject != nil && validSet(subject) && validSet(prefix)
+//@   ensures[C14] mismatch: (subject is rel.String || subject is rel.Bytes) ==> ((err == nil) == okFor(subject, prefix))
+//@   ensures[C14] mismatcharr: subject is rel.Array ==> ((err == nil) == (!istrue(prefix) || prefix is rel.Array))
+//@   ensures[C14] errnil: err != nil ==> v == nil
+//@   ensures[C14] bool: err == nil ==> (v is rel.TrueSet || v is rel.EmptySet)
+//@   ensures[C14] arr: subject is rel.Array && prefix is rel.Array && dense(subject.(rel.Array)) && dense(prefix.(rel.Array)) ==> ((v is rel.TrueSet) <==> win(subject.(rel.Array).values, 0, prefix.(rel.Array).values))
+//@   ensures[C14] byt: subject is rel.Bytes && prefix is rel.Bytes ==> ((v is rel.TrueSet) <==> bwin(subject.(rel.Bytes).b, 0, prefix.(rel.Bytes).b))
+//@   ensures[C14] emptyprefix: seqRep(subject) && prefix is rel.EmptySet ==> v is rel.TrueSet
+//@   ensures[C14] emptysubject: subject is rel.EmptySet ==> err == nil && ((v is rel.TrueSet) <==> prefix is rel.EmptySet)
+
+//@ func stdSeqHasSuffix(ctx, suffix, subject)
+//@   tags C14, C10
+//@   assigns fresh-only
+//@   returns (v, err)
+//@   requires suffix != nil && subject != nil && validSet(subject) && validSet(suffix)
+//@   ensures[C14] mismatch: seqRep(subject) ==> ((err == nil) == okFor(subject, suffix))
+//@   ensures[C14] errnil: err != nil ==> v == nil
+//@   ensures[C14] bool: err == nil ==> (v is rel.TrueSet || v is rel.EmptySet)
+//@   ensures[C14] arr: subject is rel.Array && suffix is rel.Array && dense(subject.(rel.Array)) && dense(suffix.(rel.Array)) ==> ((v is rel.TrueSet) <==> win(subject.(rel.Array).values, len(subject.(rel.Array).values) - len(suffix.(rel.Array).values), suffix.(rel.Array).values))
+//@   ensures[C14] byt: subject is rel.Bytes && suffix is rel.Bytes ==> ((v is rel.TrueSet) <==> bwin(subject.(rel.Bytes).b, len(subject.(rel.Bytes).b) - len(suffix.(rel.Bytes).b), suffix.(rel.Bytes).b))
+//@   ensures[C14] emptysuffix: seqRep(subject) && suffix is rel.EmptySet ==> v is rel.TrueSet
+//@   ensures[C14] emptysubject: subject is rel.EmptySet ==> err == nil && ((v is rel.TrueSet) <==> suffix is rel.EmptySet)
+
+//@ func stdSeqTrimSuffix(ctx, suffix, subject)
+//@   tags C14, C10
+//@   assigns fresh-only
+//@   returns (v, err)
+//@   requires suffix != nil && subject != nil && validSet(subject) && validSet(suffix)
+//@   ensures[C14] mismatch: (subject is rel.String || subject is rel.Bytes) ==> ((err == nil) == okFor(subject, suffix))
+//@   ensures[C14] mismatcharr: subject is rel.Array ==> ((err == nil) == (!istrue(suffix) || suffix is rel.Array || suffix is rel.EmptySet))
+//@   ensures[C14] errnil: err != nil ==> v == nil
+//@   ensures[C14] other: !seqRep(subject) ==> err == nil && v == subject
+//@   ensures[C14] bytkeep: subject is rel.Bytes && suffix is rel.Bytes && !bwin(subject.(rel.Bytes).b, len(subject.(rel.Bytes).b) - len(suffix.(rel.Bytes).b), suffix.(rel.Bytes).b) ==> v == subject
+//@   ensures[C14] arrkeep: subject is rel.Array && suffix is rel.Array && dense(subject.(rel.Array)) && dense(suffix.(rel.Array)) && !win(subject.(rel.Array).values, len(subject.(rel.Array).values) - len(suffix.(rel.Array).values), suffix.(rel.Array).values) ==> v == subject
+
+//@ func stdSeqTrimPrefix(ctx, prefix, subject)
+//@   tags C14, C10
+//@   assigns fresh-only
+//@   modifies rel.arrayValueEnumerator
+//@   returns (v, err)
+//@   requires prefix != nil && subject != nil && validSet(subject) && validSet(prefix)
+//@   ensures[C14] mismatch: (subject is rel.String || subject is rel.Bytes) ==> ((err == nil) == okFor(subject, prefix))
+//@   ensures[C14] errnil: err != nil ==> v == nil
+//@   ensures[C14] bytkeep: subject is rel.Bytes && prefix is rel.Bytes && !bwin(subject.(rel.Bytes).b, 0, prefix.(rel.Bytes).b) ==> v == subject
+//@   ensures[C14] arrkeep: subject is rel.Array && prefix is rel.Array && dense(subject.(rel.Array)) && dense(prefix.(rel.Array)) && !win(subject.(rel.Array).values, 0, prefix.(rel.Array).values) ==> v == subject
+
+//@ func stdSeqConcat(ctx, seq)
+//@   tags C14, C10
+//@   assigns fresh-only
+//@   modifies sbout
+//@   returns (v, err)
+//@   requires seq != nil && validSet(seq)
+//@   ensures[C14] notarray: !(seq is rel.Array) && !(seq is rel.Set && !istrue(seq)) ==> err != nil
+//@   ensures[C14] errnil: err != nil ==> v == nil
+//@   loop 0 invariant true
+//@   loop 1 invariant true
+
+//@ func stdSeqJoin(ctx, joiner, subject)
+//@   tags C14, C10
+//@   assigns fresh-only
+//@   returns (v, err)
+//@   requires joiner != nil && subject != nil && validSet(subject) && validSet(joiner)
+//@   ensures[C14] emptysubject: subject is rel.EmptySet ==> err == nil && v is rel.EmptySet   // (errnil not claimed: strJoin has no contract)
+
+// stdSeqSplit: no contract (see notes: its String branch needs NewString(..) != nil and bytesSplit a contract)
+
+//@ func stdSeqSub(ctx, oldv, newv, subject)
+//@   tags C14, C10
+//@   assigns fresh-only
+//@   returns (v, err)
+//@   requires oldv != nil && newv != nil && subject != nil && validSet(subject) && validSet(oldv) && validSet(newv)
+//@   ensures[C14] mismatch: seqRep(subject) ==> ((err == nil) == (okFor(subject, oldv) && okFor(subject, newv)))
+//@   ensures[C14] errnil: err != nil ==> v == nil
